@@ -2,10 +2,12 @@
    Only statements; proofs in Proof/ClientRetry.v, model in Model/ClientRetry.v (one
    invocation through invokeConn x the rpc outcome classes x connection generations).
    PARTIAL BY DESIGN: the reconnect machinery (backoff, dialer, key exchange, init) is the
-   single environment event EReplace, exercised against the in-process server by the
-   harness, not modelled.  "Acknowledged" is the client's view (ack processed). *)
+   pair of environment events EReplace (connection installed) / EStart (backoff pause over,
+   connection run), exercised against the in-process server by the harness, not modelled
+   further.  "Acknowledged" is the client's view (ack processed). *)
 From Coq Require Import List ZArith Bool Arith.
 From TD Require Import Model.ClientRetry Proof.ClientRetry.
+From TD Require Model.Rpc.
 Import ListNotations.
 
 (* Not acknowledged when its connection died (not sent, sent and lost, or sent and executed
@@ -16,7 +18,7 @@ Theorem C29_retry_unacked_resent_and_answered :
   forall es st g s v,
     run init es = Some st -> ph st = OnConn g s -> s <> Acked -> g = cur_gen st ->
     is_dead st g = true -> closed st = false ->
-    exists st', run st [EObserveDead; EReplace; EWake; ESnapshot; ESend; EResult v] = Some st' /\
+    exists st', run st [EObserveDead; EReplace; EStart; EWake; ESnapshot; ESend; EResult v] = Some st' /\
                 ph st' = Returned (RRes v) /\ nsends st' = S (nsends st).
 Proof. exact unacked_retried. Qed.
 Print Assumptions C29_retry_unacked_resent_and_answered.
@@ -56,14 +58,64 @@ Theorem C29_retry_results_justified :
 Proof. exact results_justified. Qed.
 Print Assumptions C29_retry_results_justified.
 
-(* After client close every pending and new invocation returns: from every reachable closed
-   state, whatever phase the invocation is in (Idle = a new invocation), its own steps alone
-   -- at most 6, whichever ready case the select picks -- end in Returned. *)
-Theorem C29_retry_closed_returns :
+(* FULL STATEMENT of the last clause ("once the client is closed, pending and new invocations
+   return instead of waiting for a reconnect"), kept visible:
+     forall es st pw, run init es = Some st -> closed st = true -> returned (run_own pw 6 st) = true.
+   It is REFUTED by the faithful model and by the real client (known finding
+   "close-waits-for-backoff-pause"): the replacement connection installed by the reconnect
+   loop's notify callback is not running during the backoff pause; an invocation woken by
+   connChanged sits in its waitSession; closing the client does not reach it, because
+   invokeConn looks at the client context only after conn.Invoke returned and
+   backoff.RetryNotify's pause is not interrupted (tdsync.SyncBackoff hides BackOffContext). *)
+Theorem C29_refuted :
+  exists st, run init closed_stuck_trace = Some st /\ closed st = true /\
+             returned (run_own true 6 st) = false /\ returned (run_own false 6 st) = false /\
+             step st ESnapshot = None /\ step st ESend = None /\ step st ESendLost = None /\
+             step st EObserveDead = None /\ step st EWake = None /\ step st EWakeClosed = None /\ step st EWakeCtx = None.
+Proof. exact closed_returns_refuted. Qed.
+Print Assumptions C29_refuted.
+
+(* What holds after close, for every reachable closed state and whichever ready case the
+   select picks: the invocation returns by its own steps (at most 6), or it is on the
+   installed-not-running replacement and returns by its own steps once the pause has ended
+   (EStart: the loop runs the connection with the cancelled context, it dies) -- i.e. it
+   returns within the reconnect backoff interval (default at most 5 s, user-configurable). *)
+Theorem C29_partial :
   forall es st pw,
-    run init es = Some st -> closed st = true -> returned (run_own pw 6 st) = true.
-Proof. exact closed_returns. Qed.
-Print Assumptions C29_retry_closed_returns.
+    run init es = Some st -> closed st = true ->
+    returned (run_own pw 6 st) = true \/
+    (paused (run_own pw 6 st) = true /\
+     exists st2, step (run_own pw 6 st) EStart = Some st2 /\ returned (run_own pw 6 st2) = true).
+Proof. exact closed_returns_partial. Qed.
+Print Assumptions C29_partial.
+
+(* Universal reading of the first two clauses, for ALL event lists: the request is executed
+   at most once per connection generation (re-sends only happen on replacements) ... *)
+Theorem C29_retry_one_execution_per_generation :
+  forall es st, run init es = Some st -> nsends st <= S (cur_gen st).
+Proof. exact sends_bounded. Qed.
+Print Assumptions C29_retry_one_execution_per_generation.
+
+(* ... and with the client open and the caller's context live, the only things an invocation
+   ever returns are the result, or -- after an ack -- the connection-lost error. *)
+Theorem C29_retry_open_returns_result_or_acked_error :
+  forall es st r,
+    run init es = Some st -> ph st = Returned r -> closed st = false -> cancelled st = false ->
+    (exists v, r = RRes v) \/ (r = RErrAcked /\ acked st = true).
+Proof. exact open_returns_result_or_acked_error. Qed.
+Print Assumptions C29_retry_open_returns_result_or_acked_error.
+
+(* The outcome classes are the rpc engine's (Model/Rpc.v, C24-C26) under the retry decision
+   regenerated from telegram/invoke.go (Gen/RpcClass.v): what the model does when the
+   connection under an invocation died is errRetryableOnNewConn applied to the class Do
+   returns. *)
+Theorem C29_outcome_classes_are_rpc_classes :
+  forall st g s st',
+    ph st = OnConn g s -> step st EObserveDead = Some st' ->
+    (TD.Model.Rpc.retryable_tg (retv_at_death s) = true /\ ph st' = Waiting g) \/
+    (TD.Model.Rpc.retryable_tg (retv_at_death s) = false /\ ph st' = Returned RErrAcked).
+Proof. exact observe_dead_is_rpc_class. Qed.
+Print Assumptions C29_outcome_classes_are_rpc_classes.
 
 (* The snapshot (c.conn, c.connChanged) is ONE critical section: an invocation only ever
    waits on the "replaced" channel of a connection that is dead ... *)
@@ -88,10 +140,10 @@ Print Assumptions C29_retry_waiting_can_be_woken.
    harness searches for it on the real invokeConn/replaceConn (race-replace stress). *)
 Theorem C29_retry_split_snapshot_loses_wakeup :
   forall st, ph st = Waiting (cur_gen st) -> is_dead st (cur_gen st) = false ->
-    closed st = false -> cancelled st = false ->
+    closed st = false -> cancelled st = false -> paused st = false ->
     step st ESnapshot = None /\ step st ESend = None /\ step st ESendLost = None /\ step st EAck = None /\
     (forall v, step st (EResult v) = None) /\ step st EObserveDead = None /\ step st EWake = None /\
-    step st EWakeClosed = None /\ step st EWakeCtx = None /\ step st EReplace = None.
+    step st EWakeClosed = None /\ step st EWakeCtx = None /\ step st EReplace = None /\ step st EStart = None.
 Proof. exact split_snapshot_state_is_stuck. Qed.
 Print Assumptions C29_retry_split_snapshot_loses_wakeup.
 
@@ -99,5 +151,6 @@ Print Assumptions C29_retry_split_snapshot_loses_wakeup.
 Example C29_shapes_reachable :
   (exists st, run init [ESnapshot; ESend; EKill 0] = Some st /\ ph st = OnConn 0 SentUnacked /\ is_dead st 0 = true /\ closed st = false) /\
   (exists st, run init [ESnapshot; ESend; EAck; EKill 0; EObserveDead] = Some st /\ acked st = true /\ ph st = Returned RErrAcked /\ nsends st = 1) /\
-  (exists st, run init [ESnapshot; ESendLost; EKill 0; EObserveDead; EClose] = Some st /\ closed st = true /\ ph st = Waiting 0).
+  (exists st, run init [ESnapshot; ESendLost; EKill 0; EObserveDead; EClose] = Some st /\ closed st = true /\ ph st = Waiting 0) /\
+  (exists st, run init [ESnapshot; ESend; EKill 0; EObserveDead; EReplace; EWake; ESnapshot; EClose; EStart; EObserveDead; EWakeClosed] = Some st /\ ph st = Returned RClosed).
 Proof. repeat split; eexists; vm_compute; repeat split; reflexivity. Qed.
